@@ -114,6 +114,44 @@ def job_alias(payload):
     return out
 
 
+def job_alias_const(payload):
+    """The assertion aliases applied to CONSTANTS: `C ?TAG_x` holds exactly when C equals DW_TAG_x -- in particular not for a
+    constant of another family that merely carries the same number, and not for the plain number."""
+    fam, names, byvalue = payload
+    d = common.get_driver()
+    out = {"alias_const_cells": 0, "alias_const_held": 0, "bad": []}
+    pfx = {"TAG": "DW_TAG_", "AT": "DW_AT_", "FORM": "DW_FORM_", "OP": "DW_OP_"}[fam]
+    for x in names:
+        long = pfx + x
+        r0 = d.run(long)
+        if r0["st"] != "done" or len(r0["res"]) != 1 or r0["res"][0][0]["t"] != "c":
+            continue
+        num = int(r0["res"][0][0]["v"])
+        cands = [long, str(num), "0x%x" % num] + [w for w in byvalue.get(num, []) if w != long][:6] + [pfx + names[(names.index(x) + 1) % len(names)]]
+        for c in cands:
+            try:
+                want = d.run("%s %s ?eq" % (c, long))
+                pos = d.run("%s ?%s_%s" % (c, fam, x))
+                neg = d.run("%s !%s_%s" % (c, fam, x))
+                lng = d.run("%s ?%s" % (c, long))
+                out["alias_const_cells"] += 1
+                if any(r["st"] != "done" for r in (want, pos, neg, lng)):
+                    # a type error for this operand: then for every spelling alike
+                    if len(set(r["st"] for r in (pos, neg, lng))) != 1:
+                        out["bad"].append(("alias-on-constant:spellings-fail-differently:%s" % fam, dict(constant=c, alias=x)))
+                    continue
+                w = len(want["res"]) == 1
+                if w:
+                    out["alias_const_held"] += 1
+                if (len(pos["res"]) == 1) != w or (len(neg["res"]) == 1) != (not w) or (len(lng["res"]) == 1) != w:
+                    out["bad"].append(("alias-on-constant-disagrees-with-equality:%s" % fam, dict(constant=c, alias="?%s_%s" % (fam, x), equal=w,
+                                                                                                 pos=len(pos["res"]), neg=len(neg["res"]), long=len(lng["res"]))))
+            except common.DriverCrash as ex:
+                out["bad"].append(("crash:" + getattr(ex, "key", ex.kind), dict(constant=c, alias=x, report=ex.report[-2500:])))
+    out["bad"] = out["bad"][:40]
+    return out
+
+
 DOMS = {"dec": ("", "%d"), "hex": ("0x", "%x"), "oct": ("0o", "%o"), "bin": ("0b", None)}
 
 
@@ -339,6 +377,16 @@ def run(chk):
             for i in range(0, len(names), 25):
                 ajobs.append((f, {fam: names[i:i + 25]}))
     zcheck.consume(chk, pool.map(job_alias, ajobs), tot, ctx, samples, "C20 aliases")
+    byvalue = {}
+    for w in cand:
+        if w in hdr and w.startswith("DW_"):
+            byvalue.setdefault(hdr[w], []).append(w)
+    cjobs = []
+    for fam in ("TAG", "AT", "FORM", "OP"):
+        names = fams[fam] if not quick else fams[fam][::4]
+        for i in range(0, len(names), 12):
+            cjobs.append((fam, names[i:i + 12], byvalue))
+    zcheck.consume(chk, pool.map(job_alias_const, cjobs), tot, ctx, samples, "C20 aliases on constants")
     L = lattice()
     ints = [(v, dom) for v in (L if not quick else L[::3] + [0, 1, -1, LO, HI]) for dom in DOMS]
     if not quick:
@@ -364,6 +412,7 @@ def run(chk):
                 "printed by the CLI and read back; non-trivial = constants actually read back + alias members selecting something + distinct strings",
         "vocabulary_words": len(voc), "constant_words": tot.get("constants", 0), "constants_found_in_headers": tot.get("in_headers", 0),
         "constants_rendered_under_another_name": tot.get("renamed", 0),
+        "alias_x_constant_cells": tot.get("alias_const_cells", 0), "of_which_equal_to_the_aliased_constant": tot.get("alias_const_held", 0),
         "alias_members_checked": tot.get("alias_checks", 0), "alias_members_selecting_something": tot.get("alias_nonempty", 0),
         "integers_x_domains": tot.get("ints", 0), "directive_renderings": tot.get("fmt", 0),
         "strings_printed_and_read_back": tot.get("strings", 0), "string_alphabet": [repr(a) for a in ALPHA],
